@@ -122,10 +122,18 @@ class VOpt(V):
         return "VOpt(%s,%r)" % (self.isnone, self.inner)
 
 
+class LazyOSArgs:
+    """Arguments of a platform-raised OSError, decided (one argument or errno+strerror) only when the code
+    looks at them."""
+
+    def __init__(self, hint):
+        self.hint = hint
+
+
 class VExc(V):
     def __init__(self, cls, args=None, attrs=None):
         self.cls = cls
-        self.args = list(args or [])
+        self.args = args if isinstance(args, LazyOSArgs) else list(args or [])
         self.attrs = dict(attrs or {})
         self.fields = self.attrs
 
